@@ -27,9 +27,11 @@ KNOWN_FILE = os.path.join(VERIF, "known_findings.json")
 
 ASAN_ENV = {
     "ASAN_OPTIONS": "abort_on_error=1:detect_leaks=0:handle_abort=1:allocator_may_return_null=1:"
-                    "max_allocation_size_mb=2048:detect_stack_use_after_return=0:symbolize=1",
+                    "max_allocation_size_mb=2048:hard_rss_limit_mb=%s:detect_stack_use_after_return=0:symbolize=1" % os.environ.get("VERIF_RSS_MB", "3072"),
     "UBSAN_OPTIONS": "print_stacktrace=1:halt_on_error=1",
     "MALLOC_ARENA_MAX": "2",
+    "VERIF_DIR": VERIF,
+    "VERIF_CACHE_DIR": CACHE,
 }
 
 VARIANTS = {
@@ -323,6 +325,7 @@ def run_chunk(exe, base_args, group, lo, hi, timeout, workdir, acc, tag):
     """run cases [lo,hi) of one group, restarting after aborts; fill acc"""
     start = lo
     attempt = 0
+    hangs = 0
     while start < hi:
         attempt += 1
         journal = os.path.join(workdir, "%s.%s.%d.%d.j" % (tag, group, start, attempt))
@@ -377,6 +380,7 @@ def run_chunk(exe, base_args, group, lo, hi, timeout, workdir, acc, tag):
                                   j2, timeout)
             cases2, clause2, tally2, keys2, fin2 = parse_journal(j2)
             if rc2 is None:
+                hangs += 1
                 with acc.lock:
                     acc.evaluations += 1
                     for (cl, cls, wit) in c.viols:
@@ -413,6 +417,10 @@ def run_chunk(exe, base_args, group, lo, hi, timeout, workdir, acc, tag):
         with acc.lock:
             acc.restarts += 1
         start = c.idx + 1
+        if hangs >= 2 and start < hi:
+            with acc.lock:
+                acc.tally["cases-abandoned-after-two-hangs-in-chunk"] = acc.tally.get("cases-abandoned-after-two-hangs-in-chunk", 0) + (hi - start)
+            return
 
 
 def load_known():
